@@ -19,7 +19,7 @@ def one(name):
     meta = json.load(open(os.path.join(d, "meta.json")))
     if meta.get("discarded"):
         return name, "discarded", ""
-    props = [p for p, r in meta.get("detected_by", {}).items() if r.get("exit") == 1] or [meta["property"]]
+    props = ([os.environ["SEED_PROP"]] if os.environ.get("SEED_PROP") else None) or [p for p, r in meta.get("detected_by", {}).items() if r.get("exit") == 1] or [meta["property"]]
     wt = tempfile.mkdtemp(prefix="vp_re_"); os.rmdir(wt)
     try:
         if sh("git -C /repo worktree add -q --detach %s HEAD" % wt).returncode != 0:
